@@ -14,6 +14,7 @@ import (
 	"time"
 	"unicode/utf8"
 
+	"github.com/hedzr/is/term/color"
 	"github.com/hedzr/logg/slog"
 )
 
@@ -496,10 +497,26 @@ var encCaller = pcHere()
 const customLevel = 13 // registered without colours ("custom13")
 const unregLevel = 42  // never registered: prints as L#42
 
+// further registered levels of the encoder harness processes (Corr/Enc.v enc_registry registers the same)
+const fgOnlyLevel = 14 // "fgonly14": a foreground colour and no background
+const fgBgLevel = 15   // "fgbg15": both colours and its own short tags
+const lateLevel = 16   // "late16": a foreground colour; C09 also registers it AFTER records of value 16 were formatted
+
+var encCustomLevels = []int{customLevel, fgOnlyLevel, fgBgLevel, lateLevel}
+
+// encRegister: the registrations alone (the registry must not hold them yet)
+func encRegister() {
+	_ = slog.RegisterLevel(slog.Level(customLevel), "custom13")
+	_ = slog.RegisterLevel(slog.Level(fgOnlyLevel), "fgonly14", slog.RegWithColor(color.Color(35)))
+	_ = slog.RegisterLevel(slog.Level(fgBgLevel), "fgbg15", slog.RegWithColor(color.Color(33), color.Color(44)),
+		slog.RegWithShortTags([slog.MaxLengthShortTag]string{"", "F", "FB", "FGB", "FGBG", "FGBG5"}))
+	_ = slog.RegisterLevel(slog.Level(lateLevel), "late16", slog.RegWithColor(color.Color(36)))
+}
+
 func encSetup(snap *slog.VerifRegistry) {
 	resetProcess(snap)
 	slog.AddFlags(slog.LnoInterrupt)
-	_ = slog.RegisterLevel(slog.Level(customLevel), "custom13")
+	encRegister()
 }
 
 // emit runs the real encoder once and returns the payload(s) written
@@ -527,6 +544,7 @@ func (rec EncRec) emit() [][]byte {
 		l.SetColorMode(true)
 	}
 	l.SetWriter(pool[1]).SetErrorWriter(pool[1]).SetUTCMode(true)
+	rec.warmUp()
 	events = nil
 	pc := uintptr(0)
 	if c.Caller {
@@ -540,6 +558,37 @@ func (rec EncRec) emit() [][]byte {
 		}
 	}
 	return out
+}
+
+// warmUp: two records out of three are formatted right after a record of ANOTHER logger in
+// ANOTHER format (a coloured multi-line Trace record with a group and an error, a JSON or a logfmt
+// one), on the same pooled context; which one is a function of the record itself, so that a
+// replay of the case repeats it
+func (rec EncRec) warmUp() {
+	h := len(rec.Msg)*7 + len(rec.Attrs)*3 + rec.Cfg.Level + rec.Cfg.TagWidth
+	if h%3 == 0 {
+		return
+	}
+	var others []string
+	for _, m := range []string{"json", "logfmt", "color"} {
+		if m != rec.Cfg.Mode {
+			others = append(others, m)
+		}
+	}
+	mode := others[(h/3)%2]
+	w := slog.VerifEntryOf(slog.New("warmup"))
+	switch mode {
+	case "json":
+		w.SetJSONMode(true)
+	case "logfmt":
+		w.SetColorMode(false)
+	default:
+		w.SetColorMode(true)
+	}
+	w.SetWriter(c09Discard).SetErrorWriter(c09Discard)
+	lvl := []slog.Level{slog.TraceLevel, slog.ErrorLevel, slog.OKLevel, slog.Level(fgBgLevel)}[h%4]
+	w.WriteThru(nil, lvl, fixedTime, encCaller.PC, "warm-up\nsecond line\n",
+		slog.Attrs{slog.Group("wg", slog.Int("a", 1), slog.Group("inner", slog.String("s", "x"))), slog.NewAttr("err", fmt.Errorf("warm-up error")), slog.String("z", "last")})
 }
 
 const tsText = "13:14:15.123456Z" // fixedTime in the default layout (Ltime|Lmicroseconds), UTC mode
